@@ -247,7 +247,7 @@ func verbatimIDs(c *Ctx) {
 				continue
 			}
 			n++
-			s := exprText(c.P.Fset, fi.value)
+			s := normText(exprText(c.P.Fset, fi.value))
 			construct := fmt.Sprintf("%s#%s.%s", d.name, on, fn)
 			bad := strings.Contains(s, "BOMRef")
 			okSrc := strings.Contains(s, ".Id") || strings.Contains(s, "ElementRefID") || strings.Contains(s, "RootElements") || strings.HasSuffix(s, "{}")
@@ -263,7 +263,7 @@ func verbatimIDs(c *Ctx) {
 			if sel, ok := as.Lhs[0].(*ast.SelectorExpr); !ok || sel.Sel.Name != "RootElements" {
 				return true
 			}
-			s := exprText(c.P.Fset, as.Rhs[0])
+			s := normText(exprText(c.P.Fset, as.Rhs[0]))
 			n++
 			c.check(!strings.Contains(s, "BOMRef") && (strings.Contains(s, "ElementRefID") || strings.Contains(s, ".Id")), R, d.name+"#RootElements-append", c.P.Pos(as.Pos()),
 				"root ← "+s, "a root element is appended from "+s)
@@ -273,7 +273,7 @@ func verbatimIDs(c *Ctx) {
 		for _, cs := range callsIn(d.pkg, d.fd.Body) {
 			if (cs.callee.Name() == "RelateNodeListAtID" || cs.callee.Name() == "RelateNodeAtID") && len(cs.call.Args) >= 2 {
 				n++
-				s := types.ExprString(cs.call.Args[1])
+				s := normText(types.ExprString(cs.call.Args[1]))
 				c.check(!strings.Contains(s, "BOMRef") && (strings.Contains(s, ".Id") || strings.Contains(s, "RootElements[")), R, d.name+"#"+cs.callee.Name()+"-anchor", c.P.Pos(cs.call.Pos()),
 					"anchor ← "+s, "sub-components are related at "+s+", which is not the parsed node's Id")
 			}
@@ -283,7 +283,7 @@ func verbatimIDs(c *Ctx) {
 			if fi.owner != nil && fi.owner.Obj().Name() == "Node" && fi.field.Name() == "Id" {
 				n++
 				e := chase(d.pkg, nil, fi.value)
-				s := types.ExprString(e)
+				s := normText(types.ExprString(e))
 				okID := strings.HasSuffix(s, "BOMRef") || strings.HasSuffix(s, "SPDXIdentifier") || strings.Contains(s, "NewNodeIdentifier(")
 				c.check(okID, R, d.name+"#Node.Id", c.P.Pos(fi.pos), "Id ← "+s, "Node.Id is filled from "+s+", not from the native identifier or the generator")
 			}
